@@ -12,3 +12,6 @@ func Emit(kind string, kv ...any) {}
 
 // Gate is a scheduling point: the harness may park the calling goroutine here.
 func Gate(name string, kv ...any) {}
+
+// Count increments the named work counter (used to bound the work of graph algorithms).
+func Count(name string) {}
